@@ -89,7 +89,7 @@ fn c20_undo_layers_u16() {
     let dn = cobs::decode_in_place(&mut o1[..m]).unwrap();
     let back: u16 = postcard::de_flavors::crc::from_bytes_u16(&o1[..dn], C16.digest()).unwrap();
     assert!(back == v, "undoing COBS then CRC does not recover the value");
-    kani::cover!(m == 9, "longest frame reachable");
+    kani::cover!(m == 7, "longest frame reachable");
 }
 
 #[kani::proof]
@@ -124,6 +124,35 @@ fn c20_single_crc_u32() {
     eq_prefix(&o3[..n], plain, n);
     assert!(o3[n] == c as u8 && o3[n + 1] == (c >> 8) as u8 && o3[n + 2] == (c >> 16) as u8 && o3[n + 3] == (c >> 24) as u8);
     kani::cover!(n == 5, "longest payload reachable");
+}
+
+#[kani::proof]
+#[kani::unwind(12)]
+//@ tier=quick class=core cap=900 bounds="all u16 values x every slice capacity 0..=8: whenever CrcModifier<u32> over Slice returns Ok the output is the COMPLETE plain ++ le(crc32); too-small capacity is an error"
+fn c20_crc_over_bounded_slice() {
+    let v: u16 = kani::any();
+    let mut pb = [0u8; 3];
+    let plain = postcard::to_slice(&v, &mut pb).unwrap();
+    let n = plain.len();
+    let c = crc_bitwise(&CRC_32_ISCSI, plain) as u32;
+    let mut buf = [0u8; 8];
+    let cap: usize = kani::any();
+    kani::assume(cap <= 8);
+    let r = postcard::serialize_with_flavor(&v, CrcModifier::new(Slice::new(&mut buf[..cap]), C32.digest()));
+    match r {
+        Ok(out) => {
+            assert!(out.len() == n + 4, "Ok although the output is not the complete transformation of the plain bytes");
+            eq_prefix(&out[..n], plain, n);
+            assert!(out[n] == c as u8 && out[n + 1] == (c >> 8) as u8 && out[n + 2] == (c >> 16) as u8 && out[n + 3] == (c >> 24) as u8);
+            assert!(cap >= n + 4);
+        }
+        Err(e) => {
+            assert!(cap < n + 4, "failed although the capacity suffices");
+            assert!(matches!(e, postcard::Error::SerializeBufferFull));
+        }
+    }
+    kani::cover!(cap == n + 3, "capacity one byte short of the checksum");
+    kani::cover!(cap == n + 4, "exact fit");
 }
 
 /// A user-supplied flavour that records what it is given (fixed-array log).
